@@ -181,5 +181,8 @@ def run(R, tier):
                 pass
 
 
+REPLAY_BY_RERUN = True      # inputs derive from the seed recorded in the replay file: the recorded run is regenerated
+
+
 def replay(R, rec):
-    return False
+    return kv.replay_by_rerun(__import__('sys').modules[__name__], rec['property'], rec)
